@@ -856,6 +856,13 @@ func (lb *LoadBalancer) recordRequestMetrics(backend *Backend, statusCode int, s
 // handlePassiveHealthCheck handles passive health check logic for failed requests
 func (lb *LoadBalancer) handlePassiveHealthCheck(backend *Backend, statusCode int, r *http.Request) {
 	logger := logging.WithContext(r.Context())
+	// A client that went away (closed its connection, cancelled the request) ends the exchange
+	// with an error of its own making: the 502 written to nobody is not a failed response of
+	// the backend and must not bring a healthy backend closer to ejection
+	if errors.Is(r.Context().Err(), context.Canceled) {
+		logger.Debug().Str("backend", backend.Name).Int("status", statusCode).Msg("client went away, not counted against the backend")
+		return
+	}
 	// Increment failure count for this backend
 	lb.healthChecks.unhealthyBackendMu.Lock()
 	lb.healthChecks.unhealthyBackends[backend.Name]++
